@@ -83,6 +83,11 @@ def setUInt (w : Bits) (v : Nat) (n pos : Nat) : Except Err Bits :=
   else if 2 ^ n ≤ v then .error .other
   else .ok (w.take pos ++ toBits n v ++ w.drop (pos + n))
 
+/-- `set_uint` as it is called from Python: the value is an arbitrary integer; a negative one is refused
+    (`bitstring` cannot make an unsigned field of it), never stored as its two's complement. -/
+def setUIntZ (w : Bits) (v : Int) (n pos : Nat) : Except Err Bits :=
+  if v < 0 then .error .other else setUInt w v.toNat n pos
+
 /-! ### Reader (consume style) -/
 
 abbrev R (α : Type) := Bits → Except Err (α × Bits)
